@@ -168,7 +168,7 @@ def run(v, O):
     out = []
     for head, expr, want in v.cases:
         r = outcome(lambda: bool(dip_parse(head + '\\nres bool = ("' + expr + '")').data(Format.VALUE)['res']))
-        out.append((f'{head.splitlines()[0]} ; {expr}', O.same(r, ('ok', want))))
+        out.append((f'{head.splitlines()[0]} ; {expr}', O.same(r[0], 'raised') if want == 'refused' else O.same(r, ('ok', want))))
     return out
 '''
 FN_SRC = '''
@@ -286,8 +286,8 @@ def lgen(rnd, depth, state):
             dim = rnd.choice([0, 1])
             units = {0: [None], 1: ['m', 'cm', 'km']}[dim]
             ops = []
-            kinds = rnd.choice([('ref', 'lit'), ('lit', 'ref'), ('ref', 'ref')])     # two bare literals cannot be compared by the library (no data type on either side)
-            dt = rnd.choice(['float', 'float', 'int']) if dim == 0 else 'float'
+            kinds = rnd.choice([('ref', 'lit'), ('lit', 'ref'), ('ref', 'ref'), ('lit', 'lit')])     # two literals are compared as floats in the unit of the right one
+            dt = rnd.choice(['float', 'float', 'int']) if dim == 0 and kinds != ('lit', 'lit') else 'float'
             for side in (0, 1):
                 unit = rnd.choice(units)
                 if kinds[side] == 'ref':
@@ -384,6 +384,11 @@ def _ties():
                              ('w int = 2500 mm\nd int = 2 m', '{?w} > {?d}', True), ('w int = 2500 mm\nd int = 2 m', '{?w} == {?d}', False), ('w int = 2500 mm\nd int = 2 m', '{?d} != {?w}', True),
                              ('w int = 2000 mm\nd int = 2 m', '{?w} == {?d}', True), ('g\n  w int = 2500 mm\n  d int = 2 m', '{?g.w} >= {?g.d}', True)):
         out.append((head, expr, want))
+    # two literals: compared with their units (fixed by e09fbeb; before, the units were ignored and ordered comparisons raised TypeError)
+    for expr, want in (('1 m == 100 cm', True), ('1 m == 1 cm', False), ('1 m != 100 cm', False), ('1 m != 1 cm', True), ('2 km > 1500 m', True), ('2 km < 1500 m', False), ('1 < 2', True), ('2 <= 1', False),
+                       ('3 dm <= 30 cm', True), ('0.3 m >= 3 dm', True), ('1 in == 2.54 cm', True), ('~1 m == 100 cm', False), ('1e3 m == 1 km && 2 > 1', True), ('1 m == 1 cm || 1 == 1', True),
+                       ('57.3 kg == 57300.01 g', True), ('57.3 kg == 57310 g', False), ('1 m == 1 s', 'refused'), ('1 kg < 1 m', 'refused')):
+        out.append(('z float = 0', expr, want))
     return out
 
 
@@ -409,6 +414,19 @@ def scenarios(tier, seed):
     bad = [('adding different dimensions', 'a float = ("10 m + 1 J")'), ('subtracting different dimensions', 'a float = ("10 m - 1 s") m'), ('reference to a missing node', 'a float = ("{?zz} * 2")'),
            ('result requested in another dimension', 'a float = ("2 m * 3 m") s'), ('unknown unit inside the expression', 'a float = ("2 foo + 1 foo")')]
     S.append(Scenario('numerical-rejected', MIX_SRC, {}, consts={'bad': bad}, preamble=PRE, what='numerical expressions that must be refused', samples=1))
+    # every ordered pair of units of different dimension, reciprocal pairs (s / Hz, m / m-1, Ohm / S, km/s / s/m) included, literal and referenced operands
+    DIMU = ['m', 's', 'Hz', 'm-1', 'J', 'kg', 'm/s', 's/m', 'K', 'Ohm', 'S', 'm2', 'N', 'rad']
+    pairs = [(a, b) for a in DIMU for b in DIMU if a != b]
+    bad2 = []
+    for k, (a, b) in enumerate(pairs):
+        op = '+-'[k % 2]
+        if k % 3 == 0:
+            bad2.append((f'{a} {op} {b} (referenced operands)', f'p float = 2 {a}\nq float = 4 {b}\na float = ("{{?p}} {op} {{?q}}") {a}'))
+        elif k % 3 == 1:
+            bad2.append((f'{a} {op} {b}', f'a float = ("2 {a} {op} 4 {b}") {a}'))
+        else:
+            bad2.append((f'3 * ({a} {op} {b})', f'q float = 4 {b}\na float = ("3 * (2 {a} {op} {{?q}})")'))
+    S.append(Scenario('numerical-rejected/dimensions', MIX_SRC, {}, consts={'bad': bad2}, preamble=PRE, what='sums and differences of operands of different dimension (all ordered pairs of 14 units)', samples=1))
     for j in range(nlog):
         state = {'nodes': [], 'lits': [], 'bools': [], 'cmps': []}
         t = lgen(rnd, rnd.choice([1, 2, 2, 3]), state)
@@ -442,6 +460,8 @@ def scenarios(tier, seed):
         else:
             ops = ['==', '!=', '<=', '>=', '<', '>']
             pre = ['v.b >= 0.1', f'v.b * {fb / fa!r} >= 0.1', 'abs(v.d) >= 12', 'abs(v.d) <= 1000']
+            if j % 8 >= 6:           # small magnitudes (1e-12 .. 1e-7): the tolerance is relative, values that differ by a factor are not equal
+                pre = ['v.b >= 1e-12', 'v.b <= 1e-7', 'abs(v.d) >= 12', 'abs(v.d) <= 5000000']
         S.append(Scenario(f'band/{j}', BAND_SRC, {'b': 'real', 'd': 'real'}, pre, consts={'ua': ua, 'ub': ub, 'kinds': kinds, 'ops': ops, 'inside': inside}, preamble=PRE,
                           what=f'comparisons of values {"inside" if inside else "just outside"} the 1e-6 tolerance, units {ua} / {ub}, operands {kinds}', samples=3))
     S.append(Scenario('ties', TIES_SRC, {}, consts={'cases': TIES}, preamble=PRE, what='comparisons of exactly equal quantities written in different units (binary64 conversion noise)', samples=1))
